@@ -67,6 +67,11 @@ func (st *PrefixStorage) Remove() error {
 	st.Lock()
 	defer st.Unlock()
 
+	if st.prefix == nil {
+		// NOTE closed; nil prefix is the whole key space of the storage
+		return storage.ErrClosed.WithStack()
+	}
+
 	return RemoveByPrefix(st.Storage, st.prefix)
 }
 
@@ -93,7 +98,16 @@ func (st *PrefixStorage) Iter(
 	callback func([]byte, []byte) (bool, error),
 	sort bool,
 ) error {
-	nr := leveldbutil.BytesPrefix(st.prefix)
+	st.RLock()
+	prefix := st.prefix
+	st.RUnlock()
+
+	if prefix == nil {
+		// NOTE closed; nil prefix is the whole key space of the storage
+		return storage.ErrClosed.WithStack()
+	}
+
+	nr := leveldbutil.BytesPrefix(prefix)
 
 	if r != nil {
 		if r.Start != nil {
